@@ -69,11 +69,11 @@ theorem census_conc_lib_common_cpr_hook_verif_go : Census.conc_lib_common_cpr_ho
 
 /-- `lib/journal/journal.go` -/
 def conc_lib_journal_journal_go : List Site := [
-  -- the single consumer that builds the journal from the directives of all files in ARRIVAL order: C06_journal_deterministic / C05 (days and per-day contents up to order); known finding print-same-day-directives-of-different-files-in-arrival-order
+  -- the single consumer that builds the journal from the directives of all files in ARRIVAL order: C06_journal_deterministic / C05 (days and per-day contents up to order); known finding print-same-day-directives-of-different-files-in-arrival-order; GAP found by the review (reported): a day's prices reach Prices.Insert in arrival order and the last quote of a pair wins, so the same pair quoted differently on one day in two files makes valued reports schedule-dependent
   ("lib/journal/journal.go", "FromModelStream", "cpr", "-", "cpr.FanIn in straight"),
-  -- the single consumer that builds the journal from the directives of all files in ARRIVAL order: C06_journal_deterministic / C05 (days and per-day contents up to order); known finding print-same-day-directives-of-different-files-in-arrival-order
+  -- the single consumer that builds the journal from the directives of all files in ARRIVAL order: C06_journal_deterministic / C05 (days and per-day contents up to order); known finding print-same-day-directives-of-different-files-in-arrival-order; GAP found by the review (reported): a day's prices reach Prices.Insert in arrival order and the last quote of a pair wins, so the same pair quoted differently on one day in two files makes valued reports schedule-dependent
   ("lib/journal/journal.go", "FromModelStream", "cpr", "-", "cpr.ForEach in closure"),
-  -- the single consumer that builds the journal from the directives of all files in ARRIVAL order: C06_journal_deterministic / C05 (days and per-day contents up to order); known finding print-same-day-directives-of-different-files-in-arrival-order
+  -- the single consumer that builds the journal from the directives of all files in ARRIVAL order: C06_journal_deterministic / C05 (days and per-day contents up to order); known finding print-same-day-directives-of-different-files-in-arrival-order; GAP found by the review (reported): a day's prices reach Prices.Insert in arrival order and the last quote of a pair wins, so the same pair quoted differently on one day in two files makes valued reports schedule-dependent
   ("lib/journal/journal.go", "FromModelStream", "cpr", "-", "cpr.Push in closure"),
   -- the three loader stages
   ("lib/journal/journal.go", "FromPath", "go", "-", "*pool.ContextPool.Go in straight"),
